@@ -55,9 +55,9 @@ func hasStruct(f bebop.File, name string) bool {
 const sentinel = "\nstruct Zq9 {}\n"
 
 var lexemes = []string{"struct", "message", "enum", "union", "const", "readonly", "import", "[", "]", "(", ")", "{", "}", ";", ",", "=", ":", "->", "|", "<<",
-	"a", "1", "-1", "\"s\"", "//c\n", "/*c*/", "\n", "flags", "opcode", "deprecated", "int32", "1.5", "&", ">>", "map", "array"}
+	"a", "1", "-1", "\"s\"", "//c\n", "/*c*/", "\n", "flags", "opcode", "deprecated", "int32", "1.5", "&", ">>", "map", "array", "+"}
 
-var byteAlphabet = []byte{'/', '*', '"', '\\', '-', '>', '<', '0', '1', 'x', '.', 'e', 'a', 'f', 'i', 'n', '\n', ' ', '{', '}', '[', ';', 0x80, 0xff, '\r', '\t'}
+var byteAlphabet = []byte{'/', '*', '"', '\\', '-', '>', '<', '0', '1', 'x', '.', 'e', 'a', 'f', 'i', 'n', '\n', ' ', '{', '}', '[', ';', 0x80, 0xff, '\r', '\t', '+'}
 
 type ctx struct{ name, prefix, suffixHint string }
 
@@ -382,6 +382,41 @@ func main() {
 			}
 		}
 	}
+	// A2e: everything that can stand inside a LINE COMMENT where comments are interpreted (field tags in struct, message and
+	// union bodies, doc comments above definitions): all sequences of up to maxCmt pieces over the pieces of the tag syntax
+	{
+		pieces := []string{"[tag(", "k", ":", "\"", "v", ")]", " ", "[", ")", "`", "'c'", "\\"}
+		maxCmt := 4
+		if run.Thorough() {
+			maxCmt = 5
+		}
+		frames := []struct{ name, pre, post string }{
+			{"struct-field-comment", "struct A {\n//", "\nint32 x;\n}\n"},
+			{"message-field-comment", "message M {\n//", "\n1 -> int32 x;\n}\n"},
+			{"union-branch-comment", "union U {\n//", "\n1 -> struct B {\n//[tag(a:\"b\")]\nint32 x;\n}\n}\n"},
+			{"top-level-comment", "//", "\nstruct A {\n}\n"},
+			{"enum-member-comment", "enum E {\n//", "\nA = 1;\n}\n"},
+			{"trailing-field-comment", "struct A {\nint32 x; //", "\nint32 y;\n}\n"},
+		}
+		var contents []string
+		var recC func(cur string, n int)
+		recC = func(cur string, n int) {
+			contents = append(contents, cur)
+			if n == maxCmt {
+				return
+			}
+			for _, c := range pieces {
+				recC(cur+c, n+1)
+			}
+		}
+		recC("", 0)
+		for _, fr := range frames {
+			for _, c := range contents {
+				jobs = append(jobs, job{fr.pre + c + fr.post, "comment-content", fr.name, byteClass(append([]byte(c), ' ')[0])})
+				jobs = append(jobs, job{strings.ReplaceAll(fr.pre+c+fr.post, "\n", "\r\n"), "comment-content", fr.name + "-crlf", byteClass(append([]byte(c), ' ')[0])})
+			}
+		}
+	}
 	// A2d: inputs of several megabytes (a size cap inside ReadFile would silently drop what lies beyond it): structs one per
 	// line, and one struct followed by megabytes of line comments; the appended-definition test sees the end of each
 	for _, mib := range []int{3, 5, 9} {
@@ -584,7 +619,7 @@ func main() {
 	run.Coverage["byte_alphabet"] = len(byteAlphabet)
 	run.Coverage["max_bytes"] = maxBytes
 	run.Coverage["start_states"] = len(contexts)
-	run.Coverage["rule"] = "state = one input (all lexeme strings ≤ max_lexemes over a 36-lexeme alphabet from 2 start states; all byte strings ≤ max_bytes over a 26-byte alphabet from 11 start states; 34 well-formed definitions × 28 tails) or one (valid text, failure offset, style, chunking) reader fault; oracle: no panic, returns (60 s watchdog), a failing reader yields an error, success implies an appended definition is seen; distinct = distinct outcomes (error / panic class / accepted File)"
+	run.Coverage["rule"] = "state = one input (all lexeme strings ≤ max_lexemes over a 37-lexeme alphabet from 2 start states; all byte strings ≤ max_bytes over a 27-byte alphabet from 11 start states; every comment content of up to 4 (5) pieces of the tag syntax in 6 comment positions; 34 well-formed definitions × 28 tails) or one (valid text, failure offset, style, chunking) reader fault; oracle: no panic, returns (60 s watchdog), a failing reader yields an error, success implies an appended definition is seen; distinct = distinct outcomes (error / panic class / accepted File)"
 	run.Assume = []string{"the coverage-guided fuzzing clause of the quantifier is a different technique and is replaced by exhaustive small-alphabet strings"}
 	run.Finish()
 }
